@@ -11,9 +11,18 @@ from pathlib import Path
 
 import numpy as np
 
-from harness.common import frac
+from harness.common import frac as _frac
 
 PID = "C38"
+
+
+def frac(x):
+    """exact wire form; non-finite floats (np.empty garbage after a wrong import) as words, never an exception"""
+    try:
+        return _frac(x)
+    except (ValueError, OverflowError):
+        return repr(float(x))
+
 THEOREMS = [
     "PorepyVerif.C38.groups_partition_cells",
     "PorepyVerif.C38.groups_partition_cells_as_coded",
@@ -31,8 +40,7 @@ THEOREMS = [
 LEAN_MODULES = ["PorepyVerif.C38.Props"]
 AUDIT = "PorepyVerif/C38/Audit.lean"
 DRIVER = "PorepyVerif/C38/Driver.lean"
-N = {"quick": 30, "thorough": 600}
-DISABLED = True
+N = {"quick": 24, "thorough": 500}
 RULE = ("md-grids from a recipe: hand-built 2-d strips mixing triangles, quadrilaterals, pentagons, hexagons; Cartesian and "
         "structured simplex grids in 1-3 d; 3-d prisms extruded from the strips, tensor (non-Cartesian) hexahedra; point grids; "
         "mdg_library squares/cubes with 1-3 fractures (interfaces with two sides) plus extra subdomains; 1-3 subdomains per "
